@@ -39,7 +39,7 @@ Sound(st, c) == HoldingEq(st) /\ PointsSum(st) /\ Supply(st) = sup[c]
 TraceInit == Init /\ l = 1 /\ ok = TRUE /\ cur = [c \in {"A", "B"} |-> InitState] /\ sup = [c \in {"A", "B"} |-> 0] /\ TLCSet(1, 0)
 
 Step(r) ==
-   IF r.big THEN /\ ok' = (r.holdingOK /\ r.pointsOK /\ r.supplyOK) /\ UNCHANGED <<cur, sup>>
+   IF r.big THEN /\ ok' = (r.holdingOK /\ r.pointsOK /\ r.supplyOK /\ r.kOK) /\ UNCHANGED <<cur, sup>>
    ELSE IF r.e = "dexstart"
         THEN /\ cur' = [cur EXCEPT ![r.chain] = St(r.post)] /\ sup' = [sup EXCEPT ![r.chain] = Supply(St(r.post))]
              /\ ok' = (HoldingEq(St(r.post)) /\ PointsSum(St(r.post)))
